@@ -353,3 +353,74 @@ End C07_generated.
 Print Assumptions C07_generated_node_run_spec.
 Print Assumptions C07_generated_node_run_is_run_op.
 Print Assumptions C07_generated_node_run_is_run_steps.
+
+(* ---------------------------------------------------------------------------------------------------------------------------------
+   Tie (T) for Model._call: coq/gen/Gen_mcall.v is re-translated from reservoirpy/model.py by tools/vlib/py2coq_mcall.py on every run
+   of ./check C07 (translated at submodel = None, which every call site passes; `self._forward` is a Section function instantiated
+   here with the generated forward pass of coq/gen/Gen_dispatch.v, `_base.call` read in the hand model with the proxies and clamps of
+   one timestep).  The generated method is proved equal to ModelSem.step -- the unit of run_steps / run_op the theorems above speak
+   about -- and to the one-step run_op (proofs/Gen_mcall_eq.v).  Model.call / _run / run stay on tie (H). *)
+From RV Require Import base.PyColl base.PyColl2 base.PyColl3 base.MCallPrelude gen.Gen_dispatch gen.Gen_mcall.
+From RV Require Import proofs.Gen_dispatch_eq proofs.Gen_mcall_eq.
+
+Section C07_generated_mcall.
+Context {F : Type} `{Num F}.
+Notation vec := (list F).
+
+(* one generated `_call` is one ModelSem.step on the external input map of X, for every model, input, forced feedback, state and
+   selection of returned states: same environment after it, a raising node is a failed step, the returned states are read AFTER the
+   step ([sel_of]: all nodes / the named nodes, KeyError for an unknown name / the output nodes, bare when there is one), and a
+   mapping that omits an entry node is refused before any node is called *)
+Theorem C07_generated_model_call_is_step (m : @model F) (inputs trainables : list node) (edges : list edge)
+    (sorted_by_name : list edge -> list edge) forced (X : pyinput vec) rs (e : @env F) :
+  NoDup (map ModelSem.nid (ModelSem.order m)) -> NoDup inputs ->
+  (forall n, In n (map ModelSem.nid (ModelSem.order m)) -> ModelSem.parents m n = dd_get (parents_dict edges sorted_by_name) n []) ->
+  g_call m inputs edges sorted_by_name trainables forced e X rs
+  = if inputs_named vec inputs X then
+      let '(e', ok) := ModelSem.step m forced (ext_of vec inputs (map ModelSem.nid (ModelSem.order m)) X) e in
+      if ok then py_bind (sel_of m rs e') (fun s => Val (e', s)) else Exc RuntimeError
+    else Exc KeyError.
+Proof. exact (gen_mcall_is_step m inputs edges sorted_by_name trainables forced X rs e). Qed.
+
+(* ... which is run_op with the default flags on the one-step sequence, whose recorded outputs are the out_states after the step *)
+Theorem C07_generated_model_call_is_run_op (m : @model F) (inputs trainables : list node) (edges : list edge)
+    (sorted_by_name : list edge -> list edge) forced (X : pyinput vec) rs (e : @env F) :
+  NoDup (map ModelSem.nid (ModelSem.order m)) -> NoDup inputs ->
+  (forall n, In n (map ModelSem.nid (ModelSem.order m)) -> ModelSem.parents m n = dd_get (parents_dict edges sorted_by_name) n []) ->
+  inputs_named vec inputs X = true ->
+  let '(e', outs, ok) := ModelSem.run_op m true false (fun _ => None) [(ext_of vec inputs (map ModelSem.nid (ModelSem.order m)) X, forced)] e in
+  g_call m inputs edges sorted_by_name trainables forced e X rs
+    = (if ok then py_bind (sel_of m rs e') (fun s => Val (e', s)) else Exc RuntimeError) /\
+  (ok = true -> outs = [ModelSem.out_states m e']).
+Proof. exact (gen_mcall_is_run_op m inputs edges sorted_by_name trainables forced X rs e). Qed.
+
+(* the default selection carries exactly ModelSem.out_states (what run_steps records): bare for one output node, keyed by name and
+   in output order for several *)
+Theorem C07_generated_model_call_default_out_states (m : @model F) (e : @env F) s :
+  NoDup (ModelSem.outputs m) -> sel_of m RsDefault e = Val s -> sel_values s = ModelSem.out_states m e.
+Proof. exact (sel_default_out_states m e s). Qed.
+End C07_generated_mcall.
+
+Print Assumptions C07_generated_model_call_is_step.
+Print Assumptions C07_generated_model_call_is_run_op.
+Print Assumptions C07_generated_model_call_default_out_states.
+
+(* Model.call (module GenMCallOp of the same generated file: check_xy, first-use initialisation, try / with_state / _load_proxys /
+   with_feedback / _call / finally _clean_proxys, the copying return), its callees read in the hand model (proofs/Gen_mcall_eq.v,
+   Part C: with_state = start_env / restore_st, _load_proxys = the current states, with_feedback = the mapping in force inside the
+   body, `_call` = one forward pass, an accepted input on an initialised model): the generated composition is run_op on the one-step
+   sequence for every flag combination, from_state, forced feedback and both outcomes -- the proxies are loaded from the states that
+   with_state installed, the states are restored also after a raise, the returned states and the recorded outputs are read in the
+   same environment *)
+Theorem C07_generated_model_call_op_is_run_op {F : Type} `{Num F} (m : @model F) (RES : Type) (sel : @env F -> RES)
+    ext forced from stateful reset (w : cworld) :
+  let '(w', r) := g_call_op m RES sel ext forced from stateful reset w in
+  let '(e', outs, ok) := ModelSem.run_op m stateful reset from [(ext, forced)] (cur w) in
+  cur w' = e' /\ fbm w' = fbm w /\
+  match r with
+  | CtxPrelude.Ok s => ok = true /\ exists e1, s = sel e1 /\ outs = [ModelSem.out_states m e1] /\ (stateful = true -> e1 = e')
+  | CtxPrelude.Exc _ => ok = false
+  end.
+Proof. exact (gen_call_op_is_run_op m RES sel ext forced from stateful reset w). Qed.
+
+Print Assumptions C07_generated_model_call_op_is_run_op.
